@@ -24,3 +24,62 @@ CONTRACTS = [
         ],
     ),
 ]
+
+
+def structural(find_def):
+    """
+    Side conditions under which `dict(map(partial(param2json_schema_property, required=required), params.items()))` IS
+    the left fold of lean/C06.lean (each an obligation, rule engine over the real ast of json_schema()):
+      S1 `required` starts as a fresh empty list            S2 it is handed to the callee only as the keyword `required`
+      S3 the partial is mapped once over intermediate_repr["params"].items() and the map is consumed once, by dict(...)
+      S4 the same list object is what the schema carries under "required" and nothing else in the function touches it
+    """
+    import ast
+
+    out = []
+    fn = find_def("cdd.json_schema.emit", "json_schema")
+    if fn is None:
+        return [("json_schema/fold-shape", None, "json_schema not found")]
+    assigns = [n for n in ast.walk(fn) if isinstance(n, (ast.Assign, ast.AnnAssign))]
+
+    def bound(name):
+        return [n for n in assigns if any(isinstance(t, ast.Name) and t.id == name for t in ([n.target] if isinstance(n, ast.AnnAssign) else n.targets))]
+
+    req = bound("required")
+    ok1 = len(req) == 1 and isinstance(req[0].value, ast.List) and not req[0].value.elts
+    out.append(("json_schema/S1-required-starts-empty", ok1, "`required = []`, bound once" if ok1 else "required is bound %d time(s): %s" % (len(req), [ast.unparse(r)[:60] for r in req])))
+    uses = [n for n in ast.walk(fn) if isinstance(n, ast.Name) and n.id == "required" and isinstance(n.ctx, ast.Load)]
+    par = {}
+    for n in ast.walk(fn):
+        for ch in ast.iter_child_nodes(n):
+            par[id(ch)] = n
+    kw_uses = [u for u in uses if isinstance(par.get(id(u)), ast.keyword) and par[id(u)].arg == "required"]
+    dict_uses = [u for u in uses if isinstance(par.get(id(u)), ast.Dict)]
+    other = [u for u in uses if u not in kw_uses and u not in dict_uses]
+    partials = [par.get(id(par[id(u)])) for u in kw_uses]
+    ok2 = (len(kw_uses) == 1 and isinstance(partials[0], ast.Call) and ast.unparse(partials[0].func) == "partial"
+           and len(partials[0].args) == 1 and ast.unparse(partials[0].args[0]) == "param2json_schema_property" and len(partials[0].keywords) == 1)
+    out.append(("json_schema/S2-required-passed-only-as-keyword-of-the-partial", ok2 and not other,
+                "partial(param2json_schema_property, required=required) is the only place the list goes (besides the schema literal)" if ok2 and not other
+                else "other uses of `required`: %s" % [ast.unparse(par.get(id(u)))[:60] for u in other + [u for u in kw_uses if not ok2]]))
+    ok3, why3 = False, "partial not bound to a name used once"
+    if ok2:
+        holder = par.get(id(partials[0]))
+        if isinstance(holder, (ast.Assign, ast.AnnAssign)):
+            pname = (holder.target if isinstance(holder, ast.AnnAssign) else holder.targets[0])
+            if isinstance(pname, ast.Name):
+                puses = [n for n in ast.walk(fn) if isinstance(n, ast.Name) and n.id == pname.id and isinstance(n.ctx, ast.Load)]
+                if len(puses) == 1:
+                    mp = par.get(id(puses[0]))
+                    dc = par.get(id(mp))
+                    ok3 = (isinstance(mp, ast.Call) and ast.unparse(mp.func) == "map" and len(mp.args) == 2 and mp.args[0] is puses[0]
+                           and ast.unparse(mp.args[1]) == "intermediate_repr['params'].items()"
+                           and isinstance(dc, ast.Call) and ast.unparse(dc.func) == "dict" and len(dc.args) == 1 and dc.args[0] is mp and not dc.keywords)
+                    why3 = "the partial is used as: %s" % ast.unparse(dc if dc is not None else mp)[:120]
+    out.append(("json_schema/S3-mapped-once-over-params-in-order-and-consumed-by-dict", ok3,
+                "dict(map(<partial>, intermediate_repr['params'].items())): one call per parameter, in declaration order" if ok3 else why3))
+    ok4 = len(dict_uses) == 1 and any(isinstance(k, ast.Constant) and k.value == "required" and v is dict_uses[0] for k, v in zip(par[id(dict_uses[0])].keys, par[id(dict_uses[0])].values))
+    muts = [n for n in ast.walk(fn) if isinstance(n, ast.Call) and isinstance(n.func, ast.Attribute) and isinstance(n.func.value, ast.Name) and n.func.value.id == "required"]
+    out.append(("json_schema/S4-same-list-emitted-under-required", ok4 and not muts,
+                'the schema literal carries {"required": required} and json_schema itself calls no method on the list' if ok4 and not muts else "dict uses: %d, method calls on required: %s" % (len(dict_uses), [ast.unparse(m)[:50] for m in muts])))
+    return out
